@@ -26,6 +26,8 @@ open Proto EvSel EvSelCrit
 
       answer   ev:<tags> src:<list> evt:<list> org:<list>     (org only in mode S)   |  ERR
 
+      isargsort <keys> <sigma>   -> 1 iff sigma is an admissible np.argsort(keys) (permutation, keys non-decreasing)
+      argsort <keys>             -> np.argsort(keys, kind='stable')
       batch <B> <K> <n>     -> rows of batchedMask with rowOf k = [k, k, ...] marker bits (k odd)
 -/
 
@@ -138,6 +140,8 @@ def answerRun (st : St) (line : String) : St × String :=
         | some s =>
           let ans := s!"ev:{fListD fNat (s.events.map Ev.tag)} {fmtPairs (s.srcEvtIdxs.getD [])} nv:{(s.nValues.getD 0)} ns:{s.nSources} ne:{s.nEvents} bkg:{s.nPureBkg}"
           (if mode.startsWith "H:" then { st with tdm := s } else st, ans)
+  | ["isargsort", ks, sg] => (st, fB (isArgsort (pList pF ks) (pList pN sg)))
+  | ["argsort", ks] => (st, fListD fNat (argsortStable (pList pF ks)))
   | ["batch", b, k, n] =>
     let rows := batchedMask (pN b) (pN k) (pN n) (fun k => List.replicate (pN n) (k % 2 == 1))
     (st, fListD (fun row => "r" ++ String.join (row.map fB)) rows)
